@@ -22,6 +22,9 @@ def _fallback_check(ev):
 
 def write(prop, ev):
     path = os.path.join(VERIF, "evidence", "%s.json" % prop)
+    if os.path.realpath(os.environ.get("VERIF_REPO", "/repo")) != "/repo":
+        # a run against a scratch source tree (mutation experiment) never overwrites the evidence of /repo
+        path = os.path.join(VERIF, "evidence", "_scratch", "%s.json" % prop)
     os.makedirs(os.path.dirname(path), exist_ok=True)
     problems = None
     try:
